@@ -247,6 +247,27 @@ func buildViaAssociation(kind string, siblings int) any {
 	return x
 }
 
+// buildTwinKeys builds a Go map (or a Map) that holds itself under two keys that are different keys for Go and one
+// key for the collator (two pointers to equal numbers), next to some siblings.
+func buildTwinKeys(kind string, siblings int) any {
+	a, b := new(int64), new(int64)
+	if kind == "Map" || kind == "Catalog" {
+		m := col.Map[any, any](model.Notation()).Make()
+		for k := 0; k < siblings; k++ {
+			m.SetValue(int64(k), int64(k))
+		}
+		m.SetValue(a, m)
+		m.SetValue(b, m)
+		return m
+	}
+	m := map[any]any{}
+	for k := 0; k < siblings; k++ {
+		m[int64(k)] = int64(k)
+	}
+	m[a], m[b] = m, m
+	return m
+}
+
 func genCyclic(s core.Source) cyclicCase {
 	c := cyclicCase{Op: core.Pick(s, []string{"compare", "rank"}, "op"), Other: core.Pick(s, []string{"self", "copy"}, "other")}
 	levels := 1 + s.Choose(3, "cycle-length")
@@ -274,8 +295,11 @@ func genCyclic(s core.Source) cyclicCase {
 		inner = v
 	}
 	c.V = inner
-	if s.Choose(4, "via-association") == 0 {
+	switch s.Choose(4, "via-association") {
+	case 0:
 		c.Via = "association"
+	case 1:
+		c.Via = "twin-keys"
 	}
 	return c
 }
@@ -288,6 +312,9 @@ func execCyclic(c cyclicCase, _ core.Source) (res core.Result) {
 		build := func() any {
 			if c.Via == "association" {
 				return buildViaAssociation(c.Kinds[0], c.Siblings[0])
+			}
+			if c.Via == "twin-keys" {
+				return buildTwinKeys(c.Kinds[0], c.Siblings[0])
 			}
 			return model.Build(c.V)
 		}
